@@ -191,6 +191,9 @@ class CSA:
     def ev(self, e, st, env):
         """evaluate expression; returns list of (st, env, kind, val): kind 'v' | 'ret' | ('brk', label)"""
         k = e['k']
+        self.steps = getattr(self, 'steps', 0) + 1
+        if self.steps > 6000000:
+            raise Undecided('CSA: analysis budget exhausted (the abstract state does not stabilise)')
         fn = getattr(self, 'ev_' + k, None)
         if fn is None:
             raise Undecided('CSA: unsupported expression kind `%s` at line %s' % (k, e.get('line')))
@@ -938,7 +941,7 @@ class CSA:
                     if eff is not None:
                         hbefore = s1.h.add(-eff)
                 s1.last_emit = {'pos': before, 'op': x.last, 'h': hbefore, 'reach': s1.reach, 'last': None, 'frame': s1.frame}
-            s1.scopes += x.scopes
+            # scope/context balance of the callee is its own obligation (R09.1); callers assume it
             for (kind, dh, fr, reach, eassume) in self.escapes_of.get(meth, {}).values():
                 if any((knows_fn if a_ == 'in_function' else knows_loop) not in (None, v_) for a_, v_ in eassume):
                     continue
@@ -1104,7 +1107,7 @@ class CSA:
                     last = None
                     if st.emitted:
                         last = st.last if st.last in self.tested_ops or st.last == 'None' else 'other'
-                    x = SummaryExit(st.h if st.reach else None, last, st.reach, dict(st.assume), [], st.scopes,
+                    x = SummaryExit(st.h if st.reach else None, last, st.reach, dict(st.assume), [], max(-2, min(2, st.scopes)),
                                     bool(st.bound) or st.pos in st.labels)
                     for k, h, f, r, asm in st.escapes:
                         if not r:
